@@ -17,6 +17,7 @@ const (
 	fStall
 	fTrickle
 	fNoAnswer
+	fHandshakeStall
 	fKinds
 )
 
@@ -58,6 +59,16 @@ func VerifC05Faults() {
 		target.Trickle = true
 	case fNoAnswer:
 		target.NoAnswer = true
+	case fHandshakeStall:
+		// the faulty hop lives on a host that accepts TCP and never speaks
+		w.StallHandshake[VHostD] = true
+		if host == VHostA {
+			start = "https://" + VHostD + "/start"
+		} else if hops == 2 {
+			redir.Raw = strings.Replace(redirRaw, VHostB, VHostD, 1)
+		} else {
+			start = "https://" + VHostD + "/doc"
+		}
 	}
 	VerifUseWorld(w, 2)
 	timeout := config.Parsed.Network.Timeout
@@ -70,7 +81,7 @@ func VerifC05Faults() {
 	switch kind {
 	case fNone:
 		verifrt.Assert(err == nil, "no-fault-no-error")
-	case fRefuse, fNoAnswer, fTrickle:
+	case fRefuse, fNoAnswer, fTrickle, fHandshakeStall:
 		verifrt.Assert(err != nil, "fault-yields-an-error")
 	case fCut, fStall:
 		// the exchange succeeds exactly if everything it needs arrived before the fault
